@@ -202,11 +202,27 @@ func judgeC07(c ReqCase) *Fail {
 		if repIdx >= len(r.Biases) || r.Biases[repIdx].Name != names[i-1] {
 			return failf("harness-report-index", "report %d is not %s", repIdx, names[i-1])
 		}
+		if r.Biases[repIdx].propsNull() {
+			// the bias did not fire (apply-probability draw lost, or mixing with < 2 criteria): nothing may change
+			prev := rec.Snaps[i-1]
+			if fmt.Sprint(prev.Crit, prev.Cons, prev.NotCons, prev.ParamsFP) != fmt.Sprint(s.Crit, s.Cons, s.NotCons, s.ParamsFP) {
+				return failf("non-firing-bias-changes-nothing", "%s reports props:null but the state changed:\n before %v %v | %v\n after  %v %v | %v", names[i-1], prev.critIds(), prev.Cons, prev.NotCons, s.critIds(), s.Cons, s.NotCons)
+			}
+			st.inc("C07:non-firing-step")
+			continue
+		}
 		if f := coherentStep(v, rec.Snaps[i-1], s, real[i-1], &r.Biases[repIdx], r, repIdx); f != nil {
 			return f
 		}
 	}
-	// (vii) API-only sibling: same final response without the probe
+	// (vii) API-only sibling: same final response without the probe. With fractional apply-probabilities the
+	// probe entries shift the positions in the draw sequence, so the sibling is a different experiment: skipped.
+	for _, b := range real {
+		if p, ok := b["applyProbability"]; ok && num(p) > 0 && num(p) < 1 {
+			st.inc("C07:with-fractional-probability")
+			return nil
+		}
+	}
 	plain := decide(mustJSON(withoutProbes(m)))
 	if !plain.OK {
 		return failf("probe-independence", "probed run accepted, plain run rejected: %s", plain.Err)
@@ -257,6 +273,10 @@ func genC07(t *rapid.T) ReqCase {
 	o := GenOpts{MaxBiases: 4, ValueMode: -1, Probes: true}
 	if g.Chance(1, 5) {
 		o.TieHeavy = true
+	}
+	if g.Chance(1, 5) {
+		// some biases may lose their apply-probability draw: what earlier biases did must stay in force
+		o.AllowProb, o.NoMinMax = true, true
 	}
 	return mkReqCase(genRequest(t, o))
 }
